@@ -8,7 +8,7 @@ LEVEL = "proof"
 TYPE_NAMES = ["Eq", "Fn", "Option", "Ordering", "Result", "Clone", "Default", "Hash", "Hasher", "H", "T", "Self_", "Some", "Ord", "PartialEq", "Sized", "Formatter"]
 FIELD_NAMES = ["this", "other", "state", "f", "rhs", "source", "lhs", "o", "to_index", "_eq", "_f", "r#type", "r#match", "r#fn", "l", "r", "_0", "_self_0", "_other_a", "__eq_"]
 VARIANT_NAMES = ["Some", "None", "Ok", "Err", "Equal", "Less", "Greater", "Self_", "Option", "Eq", "r#A", "This", "Ordering", "Default"]
-PARAM_NAMES = ["H", "T", "F", "Rhs", "Output", "Self_", "Eq", "Fn", "Option", "U", "r#T"]
+PARAM_NAMES = ["H", "T", "F", "Rhs", "Output", "Self_", "Eq", "Fn", "Option", "U", "r#T", "r#type", "r#fn"]
 SUBSETS = [["PartialEq"], ["PartialEq", "Eq"], ["PartialEq", "Eq", "PartialOrd", "Ord"], ["PartialEq", "Eq", "PartialOrd", "Ord", "Hash"], ["PartialEq", "Eq", "Hash"]]
 
 
@@ -23,7 +23,7 @@ def programs(ctx):
     for i in range(n):
         fn = rng.sample([x for x in FIELD_NAMES if x != "__eq_"], 4)
         vn = rng.sample(VARIANT_NAMES, 4)
-        td = F.random_typedef(rng, SUBSETS[i % len(SUBSETS)], fnames=fn, vnames=vn, tymap=tymap)
+        td = F.random_typedef(rng, SUBSETS[i % len(SUBSETS)], fnames=fn, vnames=vn, tymap=tymap, generic_p=0.5)
         tn = rng.choice(TYPE_NAMES)
         pn = rng.choice([p for p in PARAM_NAMES if p != tn])
         td.hostile = {"type": tn, "param": pn}
@@ -80,7 +80,7 @@ def run(ctx):
     n = 250 if ctx.quick else 4000
     cprogs = []
     for i in range(n):
-        names = {"X": rng.choice([t for t in TYPE_NAMES if t not in ("Option", "Sized")]), "T": rng.choice(["H", "T", "F", "Rhs", "Output", "U"]), "N": rng.choice(["N", "M", "LEN"]),
+        names = {"X": rng.choice([t for t in TYPE_NAMES if t not in ("Option", "Sized")]), "T": rng.choice(["H", "T", "F", "Rhs", "Output", "U", "r#type", "r#fn", "r#struct"]), "N": rng.choice(["N", "M", "LEN", "r#match"]),
                  "a": rng.choice(["'a", "'__b", "'b", "'r", "'state"]).replace("'__b", "'b"), "f": rng.sample(FIELD_NAMES[:16], 4), "v": rng.sample(VARIANT_NAMES, 4)}
         if names["T"] == names["X"]:
             names["T"] = "U"
